@@ -370,6 +370,17 @@ func runCase(c Case) (res simResult) {
 		if !allInserted() {
 			return fail("C03/sim", "a source is still blocked inserting a seed ten virtual minutes after the stop returned")
 		}
+		// a stop must not make the pipeline lie to the source: whatever was reported finished - before or during the
+		// stop - has a complete tree, and is reported once (an unfinished seed simply stays with the source)
+		seenFin := map[string]int{}
+		for _, f := range p.Finishes() {
+			if len(f.Pending) > 0 {
+				return fail("C01/pipeline", "seed %s was reported finished (around a stop) while nodes still await fetching/post-processing: %v\n%s", f.Item.GetID(), f.Pending, f.TreeDump)
+			}
+			if seenFin[f.Item.GetID()]++; seenFin[f.Item.GetID()] > 1 {
+				return fail("C01/pipeline", "seed %s was reported finished %d times (around a stop)", f.Item.GetID(), seenFin[f.Item.GetID()])
+			}
+		}
 		m := stats.GetMapTUI()
 		for _, k := range []string{"Preprocessor routines", "Archiver routines", "Postprocessor routines"} {
 			if v, _ := m[k].(uint64); v != 0 {
